@@ -81,6 +81,10 @@ type Inv struct {
 	Args  string `json:"args,omitempty"` // canonical rendering of received arguments (C02)
 	Start int64  `json:"start"`          // logical clock at entry
 	End   int64  `json:"end"`            // logical clock at exit
+	// subscriptions: the event during whose delivery the invocation happened (-1: at subscribe time);
+	// for the stream resolver itself, the values it will send
+	Event  int `json:"event,omitempty"`
+	Events []V `json:"events,omitempty"`
 }
 
 type State struct {
@@ -94,6 +98,9 @@ type State struct {
 	CancelAt int64
 	Cancel   func()
 	Cancelled bool
+	// subscriptions: index of the event being delivered (set by the runner before it asks for the next
+	// response; delivery of one event is sequential), -1 while subscribing
+	Event int
 }
 
 type stateKey struct{}
@@ -127,6 +134,7 @@ func (s *State) record(i Inv) {
 	s.clock++
 	s.maybeCancel()
 	i.End = s.clock
+	i.Event = s.Event
 	s.Log = append(s.Log, i)
 }
 
@@ -216,6 +224,14 @@ func (u *U) Bind(stub any, directives any, complexity any) {
 
 func (s *State) decide(path string, salt string) (Outcome, uint64) {
 	h := fnv(s.Plan.Seed, path+salt)
+	if s.Event > 0 {
+		// later events of a subscription: same response paths, their own outcomes
+		h = fnv(s.Plan.Seed, path+salt+"~"+strconv.Itoa(s.Event))
+		if o, ok := s.Plan.Overrides[path+salt+"~"+strconv.Itoa(s.Event)]; ok {
+			o.Delay += s.Plan.ExtraDelay[path+salt]
+			return o, h
+		}
+	}
 	if o, ok := s.Plan.Overrides[path+salt]; ok {
 		o.Delay += s.Plan.ExtraDelay[path+salt]
 		return o, h
@@ -283,6 +299,48 @@ func (u *U) resolve(ft reflect.Type, obj, goField string, args []reflect.Value) 
 	zero := reflect.Zero(rt)
 	nilErr := reflect.Zero(errType)
 	gt := fc.Field.Definition.Type
+	if rt.Kind() == reflect.Chan && o.Kind != "panic" && o.Kind != "error" {
+		// a subscription field: the values it will send are fixed now (hash per event), sent one at a
+		// time over an unbuffered channel until the context ends
+		n := 1 + int((h>>8)%3)
+		if o.Len != nil {
+			n = *o.Len
+		}
+		et := rt.Elem()
+		vals := make([]reflect.Value, n)
+		inv.Kind = "stream"
+		for k := 0; k < n; k++ {
+			eh := fnv(s.Plan.Seed, path+"#ev"+strconv.Itoa(k))
+			eo, forced := s.Plan.Overrides[path+"#ev"+strconv.Itoa(k)]
+			if (forced && eo.Kind == "nil" || !forced && int(eh%1000) < s.Plan.Rates.Nil) && nilable(et) {
+				vals[k] = reflect.Zero(et)
+				inv.Events = append(inv.Events, V{K: "null"})
+				continue
+			}
+			var f *Outcome
+			if forced && (eo.Type != "" || eo.Len != nil || eo.Str != "") {
+				f = &eo
+			}
+			ev, evv := u.build2(s, et, gt, path, eh, true, f)
+			vals[k] = ev
+			inv.Events = append(inv.Events, evv)
+		}
+		s.record(inv)
+		ch := reflect.MakeChan(reflect.ChanOf(reflect.BothDir, et), 0)
+		go func() {
+			defer ch.Close()
+			for _, v := range vals {
+				chosen, _, _ := reflect.Select([]reflect.SelectCase{
+					{Dir: reflect.SelectSend, Chan: ch, Send: v},
+					{Dir: reflect.SelectRecv, Chan: reflect.ValueOf(ctx.Done())},
+				})
+				if chosen == 1 {
+					return
+				}
+			}
+		}()
+		return []reflect.Value{ch.Convert(rt), nilErr}
+	}
 	switch o.Kind {
 	case "panic":
 		inv.Kind, inv.Msg = "panic", o.Msg
@@ -290,7 +348,7 @@ func (u *U) resolve(ft reflect.Type, obj, goField string, args []reflect.Value) 
 		panic(o.Msg)
 	case "error":
 		inv.Kind, inv.Msg = "error", o.Msg
-		if s.Plan.Rates.ErrAndVal > 0 && int((h>>12)%1000) < s.Plan.Rates.ErrAndVal {
+		if rt.Kind() != reflect.Chan && s.Plan.Rates.ErrAndVal > 0 && int((h>>12)%1000) < s.Plan.Rates.ErrAndVal {
 			val, v := u.build(s, rt, gt, path, h, true)
 			inv.Kind, inv.Val = "errval", &v
 			s.record(inv)
